@@ -101,7 +101,14 @@ def gen(tier, rng, shard, nshards):
                 ids = [enc([int(v) for v in rng.integers(-m, m, size=L)]), enc([int(v) for v in rng.integers(-n, n, size=L)])]
             else:
                 ids = [enc(rand_slice(rng, m))]
-            forms.append({"form": f, "ids": ids})
+            item = {"form": f, "ids": ids}
+            if f == "a,a" and rng.random() < 0.35:
+                # one and the same index array object for the rows and the columns (entries valid for both axes, negative ones
+                # included: they mean different positions on the two axes of a non-square operator)
+                q = min(m, n)
+                arr = rng.integers(-q, q, size=int(rng.integers(1, q + 2))) if rng.random() < 0.5 else (rng.permutation(q)[:int(rng.integers(1, q + 1))] - int(S.pick(rng, [0, q])))
+                item = {"form": f, "ids": [enc(np.asarray(arr)), enc(np.asarray(arr))], "same": True}
+            forms.append(item)
         yield {"spec": node, "indexings": forms, "xdt": S.pick(rng, S.ALL_DT), "xseed": S.seed(rng)}
 
 
@@ -135,9 +142,23 @@ def run_case(ctx, case):
         form, ids = ix["form"], ix["ids"]
         ctx.count("form", form)
         key = tuple(dec(e) for e in ids)
+        if ix.get("same"):
+            key = (key[0], key[0])
+            ctx.count("form", "a,a:same-array-object")
+        idx_arrays = [k_ for k_ in key if isinstance(k_, np.ndarray)]
+        idx_before = [k_.copy() for k_ in idx_arrays]
         want = ref_index(M, form, ids)
         wantB = ref_index(Bd, form, ids)
         got = ctx.call(lambda: A[key if len(key) > 1 else key[0]])
+        if idx_arrays:
+            # the index arrays are the caller's: indexing (whatever it normalises internally) leaves them as they were
+            same = all(a.dtype == b.dtype and a.shape == b.shape and np.array_equal(a, b) for a, b in zip(idx_arrays, idx_before))
+            ctx.check("index-arrays-left-unchanged", bool(same), site="getitem", preds={"form": form, "negative_index": bool(any((b < 0).any() for b in idx_before))},
+                      detail={"before": [b.tolist() for b in idx_before], "after": [a.tolist() for a in idx_arrays]})
+            if not same:
+                key = tuple(dec(e) for e in ids)  # (judge the values with the indices the caller meant)
+                if ix.get("same"):
+                    key = (key[0], key[0])
         preds = {"form": form, "shape": "square" if m == n else ("tall" if m > n else "wide"), "top_kind": node["k"],
                  "negative_index": any(("int" in e and e["int"] < 0) or ("i" in e and min(e["i"], default=0) < 0) or ("l" in e and min(e["l"], default=0) < 0) for e in ids)}
         if form in ("a,a", "a,s", "s,a"):
